@@ -462,3 +462,81 @@ Proof.
   - subst nt. rewrite (next_tail_ok m lb bln lbs lines br bo r o dir d fuel); try assumption.
     fold b. destruct (next_tail_model b dir r o) as [[s r'] o']. reflexivity.
 Qed.
+
+(* ------------------------------------------------------------------ lbuf_chr and the character it points at *)
+(* the pointer lbuf_chr returns: into the line, or the static "" *)
+Definition chr_ptr (lbs : list nat) (lines : list bytes) (r o : Z) : val :=
+  match rowidx lines r with
+  | Some i => chr_val (nth i lbs O) (uc_chr (nthl lines i) o)
+  | None => VPtr G_lit__0 0
+  end.
+Lemma option_map_add0 (x : option nat) : option_map (fun q => (0 + q)%nat) x = x.
+Proof. destruct x; reflexivity. Qed.
+
+Theorem tr_lbuf_chr m lb bln lbs lines r o d fuel : lbuf_at m lb bln lbs lines -> lines_small lines ->
+  (maxlen lines < fuel)%nat ->
+  callf cprog fuel (S (S (S (S d)))) F_lbuf_chr [VPtr lb 0; VInt r; VInt o] m = Ok (chr_ptr lbs lines r o, m).
+Proof.
+  intros R Hsm Hf. enter F_lbuf_chr cf_lbuf_chr. xstep.
+  rewrite (tr_lbuf_get m lb bln lbs lines r (S (S d)) fuel R Hsm). xstep.
+  unfold chr_ptr, line_ptr. destruct (rowidx lines r) as [i|] eqn:Ei; xstep; [|reflexivity].
+  destruct (rowidx_lt _ _ _ Ei) as [Hi _].
+  pose proof (la_str _ _ _ _ _ R i Hi) as Hs. pose proof (nthl_nonul lines i (la_nonul _ _ _ _ _ R)) as Hnn.
+  pose proof (maxlen_ge lines i) as Hml. pose proof (nthl_small lines i Hsm) as Hsmall.
+  change (VPtr (nth i lbs O) 0) with (VPtr (nth i lbs O) (Z.of_nat 0)).
+  rewrite (tr_uc_chr m _ _ O o d fuel Hs Hnn) by lia. xstep. cbn [skipn]. rewrite option_map_add0. reflexivity.
+Qed.
+
+(* what the pointer points at: a C string in memory whose suffix starts with the model's character lchr *)
+Lemma chr_ptr_view m lb bln lbs lines r o : lbuf_at m lb bln lbs lines -> str_at m G_lit__0 [] ->
+  exists cb cs q, chr_ptr lbs lines r o = VPtr cb (Z.of_nat q) /\ str_at m cb cs /\ nonul cs /\ (q <= length cs)%nat /\
+                  hd_chr (skipn q cs) = lchr (map chop lines) r o /\
+                  (cs = [] \/ exists i, (i < length lines)%nat /\ cs = nthl lines i).
+Proof.
+  intros R Hlit. unfold chr_ptr, lchr. rewrite getl_rowidx.
+  assert (Hnone : forall c : chr, c = [] ->
+    exists cb cs q, VPtr G_lit__0 0 = VPtr cb (Z.of_nat q) /\ str_at m cb cs /\ nonul cs /\ (q <= length cs)%nat /\
+                    hd_chr (skipn q cs) = c /\ (cs = [] \/ exists i, (i < length lines)%nat /\ cs = nthl lines i)).
+  { intros c ->. exists G_lit__0, [], O. split; [reflexivity|]. split; [exact Hlit|]. split; [constructor|].
+    split; [cbn; lia|]. split; [reflexivity|]. left. reflexivity. }
+  destruct (rowidx lines r) as [i|] eqn:Ei; cbn [option_map]; [|apply Hnone; reflexivity].
+  destruct (rowidx_lt _ _ _ Ei) as [Hi _]. pose proof (nthl_nonul lines i (la_nonul _ _ _ _ _ R)) as Hnn.
+  pose proof (uc_chr_chop (nthl lines i) o Hnn) as H. destruct (uc_chr (nthl lines i) o) as [q|]; cbn [chr_val]; [|apply Hnone; exact H].
+  destruct H as [H1 H2]. exists (nth i lbs O), (nthl lines i), q. split; [reflexivity|]. split; [apply (la_str _ _ _ _ _ R i Hi)|].
+  split; [exact Hnn|]. split; [exact H1|]. split; [exact H2|]. right. exists i. split; [exact Hi|reflexivity].
+Qed.
+
+Lemma kind_at m lb bln lbs lines r o d fuel : lbuf_at m lb bln lbs lines -> str_at m G_lit__0 [] ->
+  callf cprog fuel (S (S d)) F_uc_kind [chr_ptr lbs lines r o] m = Ok (VInt (Z.of_N (kindof (map chop lines) r o)), m).
+Proof.
+  intros R Hlit. destruct (chr_ptr_view m lb bln lbs lines r o R Hlit) as (cb & cs & q & -> & Hs & Hnn & Hq & Hv & _).
+  rewrite (tr_uc_kind m cb cs q d fuel Hs (nonul_lt256 _ Hnn) Hq). unfold kindof. rewrite <- Hv, uc_kind_hd. reflexivity.
+Qed.
+Lemma isspace_at m lb bln lbs lines r o d fuel : lbuf_at m lb bln lbs lines -> str_at m G_lit__0 [] ->
+  callf cprog fuel (S d) F_uc_isspace [chr_ptr lbs lines r o] m = Ok (VInt (b2z (uc_isspace (lchr (map chop lines) r o))), m).
+Proof.
+  intros R Hlit. destruct (chr_ptr_view m lb bln lbs lines r o R Hlit) as (cb & cs & q & -> & Hs & Hnn & Hq & Hv & _).
+  rewrite (tr_uc_isspace m cb cs q d fuel Hs (nonul_lt256 _ Hnn) Hq). rewrite <- Hv, uc_isspace_hd. reflexivity.
+Qed.
+
+(* uc_code reads up to three bytes behind the lead byte, whatever they are; the model decodes the character cut by
+   uc_next alone.  The two agree on "is it a line feed", and uc_code stays inside the line's block, when: *)
+Definition nl_ok (s : bytes) : Prop := forall q, (q <= length s)%nat ->
+  (q + uc_len_b (nthb s q) - 1 <= length s)%nat /\ (uc_code (skipn q s) =? 10)%N = is_nl (hd_chr (skipn q s)).
+Definition lines_nl_ok (lines : list bytes) : Prop := Forall nl_ok lines.
+Lemma nthl_nl_ok lines i : lines_nl_ok lines -> (i < length lines)%nat -> nl_ok (nthl lines i).
+Proof. intros H Hi. unfold lines_nl_ok in H. rewrite Forall_forall in H. apply H. apply nth_In. exact Hi. Qed.
+
+Lemma isnl_at m lb bln lbs lines r o d fuel : lbuf_at m lb bln lbs lines -> str_at m G_lit__0 [] -> lines_nl_ok lines ->
+  exists c, callf cprog fuel (S d) F_uc_code [chr_ptr lbs lines r o] m = Ok (VInt c, m) /\
+            (c =? 10) = is_nl (lchr (map chop lines) r o).
+Proof.
+  intros R Hlit Hok. destruct (chr_ptr_view m lb bln lbs lines r o R Hlit) as (cb & cs & q & -> & Hs & Hnn & Hq & Hv & Hc).
+  assert (Hnl : nl_ok cs).
+  { destruct Hc as [->|(i & Hi & ->)]; [|apply nthl_nl_ok; assumption].
+    intros q' Hq'. cbn in Hq'. assert (q' = O) as -> by lia. split; [cbn; lia|reflexivity]. }
+  destruct (Hnl q Hq) as [H1 H2]. exists (Z.of_N (uc_code (skipn q cs))). split.
+  - apply (tr_uc_code m cb cs q d fuel Hs (nonul_lt256 _ Hnn) H1 Hq).
+  - rewrite <- Hv, <- H2. destruct (N.eqb_spec (uc_code (skipn q cs)) 10) as [E|E]; [rewrite E; reflexivity|].
+    apply Z.eqb_neq. lia.
+Qed.
